@@ -35,6 +35,8 @@ type Result struct {
 
 // Ctx is handed to a scenario.
 type Ctx struct {
+	// refStore: LFS objects of a reference repository the clone borrows from (C04)
+	refStore              map[string][]byte
 	nNewBranch            int
 	T                     *sim.Tape
 	Root                  string
